@@ -145,6 +145,7 @@ typedef struct bg_adj {
 typedef struct {
   const struct bg_adj *a;
   bg_size F, below, belowUp;
+  bg_size rank; /* ghost: number of increments of the edge iterator the frontier follows */
 } bg_ghost_frontier_t;
 extern bg_ghost_frontier_t bg_ghost_frontier;
 #define BG_EQ_VLABEL(a, b) ((a).v == (b).v)
@@ -166,6 +167,10 @@ typedef struct { bg_size n; bg_size vP, vQ; } bg_vec_sz;
 extern bg_size bg_scratch_sz;
 typedef struct { bg_size n; bg_vec_sz rowP, rowQ; bg_size m; } bg_mat_sz;
 extern bg_vec_sz bg_scratch_vec_sz;
+/* clean cache, frontier untouched (functions that cannot mutate a graph) */
+#define BG_SCRATCH_CLEAN_NF                                                   \
+  (!bg_scratch_row.valid && bg_scratch_row.owner == 0 && bg_cur_adj == 0 &&   \
+   !BG_CAT(bg_scratch_val_, BG_L).valid && !BG_CAT(bg_scratch_val_, BG_L).out)
 #define BG_SCRATCH_CLEAN                                                      \
   (!bg_scratch_row.valid && bg_scratch_row.owner == 0 && bg_cur_adj == 0 &&   \
    bg_ghost_frontier.a == 0 && !BG_CAT(bg_scratch_val_, BG_L).valid &&        \
